@@ -133,6 +133,7 @@ class Evaluator(object):
         """-> list of (decisions, outcome) ; outcome = ('return', value) | ('raise', name).
         `self_obj` may be a factory (called before each run) when the function mutates self."""
         results = []
+        self.calls_per_result = []     # opaque_calls of each entry of `results` (the attribute opaque_calls holds the last run's)
         pending = [[]]
         runs = 0
         while pending:
@@ -151,6 +152,7 @@ class Evaluator(object):
                 results.append((list(self.trace), ("return", out)))
             except _Raise as r:
                 results.append((list(self.trace), ("raise", r.name, r.args_av)))
+            self.calls_per_result.append(list(self.opaque_calls))
             # alternatives for the decisions made beyond the prefix
             for i in range(len(prefix), len(self.trace)):
                 alt = [d for (_l, d) in self.trace[:i]] + [not self.trace[i][1]]
